@@ -47,6 +47,8 @@ pub struct SpaceStats {
 
 #[derive(Clone, Debug)]
 pub struct Violation {
+    pub worker: u64,
+    pub nworkers: u64,
     pub space: String,
     pub space_ordinal: u64,
     pub case: u64,
@@ -62,12 +64,15 @@ impl Violation {
     }
     pub fn to_json(&self) -> Value {
         json!({
+            "worker": self.worker, "nworkers": self.nworkers,
             "space": self.space, "space_ordinal": self.space_ordinal, "case": self.case,
             "site": self.site, "signature": self.signature, "detail": self.detail, "count": self.count,
         })
     }
     pub fn from_json(v: &Value) -> Violation {
         Violation {
+            worker: v["worker"].as_u64().unwrap_or(0),
+            nworkers: v["nworkers"].as_u64().unwrap_or(1),
             space: v["space"].as_str().unwrap_or("").to_string(),
             space_ordinal: v["space_ordinal"].as_u64().unwrap_or(0),
             case: v["case"].as_u64().unwrap_or(0),
@@ -87,6 +92,8 @@ pub struct Ctx {
     pub nworkers: u64,
     /// replay / isolation mode: execute exactly this (space ordinal, case)
     pub only: Option<(u64, u64)>,
+    /// prefix mode: execute this worker's share up to and including this (space ordinal, case), then nothing
+    pub until: Option<(u64, u64)>,
     pub start: Instant,
     pub deadline: Instant,
     pub spaces: Vec<(String, SpaceStats)>,
@@ -112,6 +119,7 @@ impl Ctx {
             worker,
             nworkers: nworkers.max(1),
             only,
+            until: None,
             start: now,
             deadline: now + budget,
             spaces: Vec::new(),
@@ -130,6 +138,9 @@ impl Ctx {
 
     /// Start a new named sub-space. `bound` describes its extent for the evidence file.
     pub fn space(&mut self, name: &str, bound: &str) {
+        if std::env::var("HV_TRACE").is_ok() {
+            eprintln!("[trace] worker {} t={:.1}s entering space {}", self.worker, self.start.elapsed().as_secs_f64(), name);
+        }
         let ordinal = self.spaces.len() as u64;
         self.spaces.push((
             name.to_string(),
@@ -149,16 +160,21 @@ impl Ctx {
 
     /// Number the next case of the current space and decide whether this process runs it.
     pub fn take(&mut self) -> bool {
-        let (w, n, seed, only) = (self.worker, self.nworkers, self.seed, self.only);
+        let (w, n, seed, only, until) = (self.worker, self.nworkers, self.seed, self.only, self.until);
         let past = Instant::now() > self.deadline;
         let st = self.st();
         let idx = st.cases;
         st.cases += 1;
         let ordinal = st.ordinal;
-        let mine = match only {
+        let mut mine = match only {
             Some((o, c)) => o == ordinal && c == idx,
             None => (idx.wrapping_add(seed)) % n == w,
         };
+        if let Some((o, c)) = until {
+            if (ordinal, idx) > (o, c) {
+                mine = false;
+            }
+        }
         if !mine {
             return false;
         }
@@ -256,6 +272,8 @@ impl Ctx {
             (s.0.clone(), s.1.ordinal)
         };
         let v = Violation {
+            worker: self.worker,
+            nworkers: self.nworkers,
             space: name,
             space_ordinal: ordinal,
             case: self.cur_case,
@@ -297,6 +315,19 @@ impl Ctx {
             "assumptions": self.assumptions,
             "wall_s": self.start.elapsed().as_secs_f64(),
         })
+    }
+}
+
+extern "C" {
+    fn malloc_trim(pad: usize) -> i32;
+}
+
+/// Give freed heap memory back to the OS. After a case that built something very large (a 70 000-term
+/// ontology) the allocator would otherwise serve the 80 MB id table of every later ontology from recycled
+/// heap memory, which has to be zeroed explicitly (4 ms per build instead of 20 us).
+pub fn trim_heap() {
+    unsafe {
+        malloc_trim(0);
     }
 }
 
